@@ -1662,6 +1662,7 @@ def main():
     src = [HEADER % seed]
     table = []
     meta = []
+    broke = []
     for e in progs:
         if e["id"] in exclude:      # rejected by dfir_lang (reported by the driver): keep the crate buildable
             continue
@@ -1672,6 +1673,10 @@ def main():
         src.append("")
         table.append("        %d => %s(steps, out)," % (e["id"], fname))
         body = e["prog"].rust_body(e["deco"], sh())
+        if os.environ.get("DFIRTICK_SELFTEST_BREAK_VARIANT") and e["variant"] and not broke:
+            # self-test of the driver's compile-verdict path: one variant becomes illegal for dfir_lang
+            body += "\n        no_such_name -> null();"
+            broke.append(e["id"])
         tags = set(e["prog"].tags)
         for opn in ("tee", "null", "handoff", "identity"):
             if "%s()" % opn in body:
